@@ -39,6 +39,7 @@ type c10Scenario struct {
 	NDerive int       `json:"derived_subs"`
 	Map2    bool      `json:"second_level_map"`
 	CloseH  bool      `json:"handler_closed_right_after_the_last_publish,omitempty"`
+	DerivH  string    `json:"derived_publisher_subscribe_on,omitempty"` // "", "own" (another handler), "same" (the origin's, buffered)
 	Threads [][]c10Op `json:"threads"`
 
 	h         *Hist
@@ -79,6 +80,7 @@ type c10Pub struct {
 type c10Node struct {
 	parent *c10Node
 	depth  int
+	hTID   int // thread of the handler set on this publisher through SubscribeOn (0 = none)
 }
 
 func (n *c10Node) under(x *c10Node) bool {
@@ -114,6 +116,10 @@ func genC10(t *simrt.Tape, tier string) Scenario {
 		// the user closes the handler as soon as the publishing threads are done: what Publish handed over before
 		// that is still delivered (a Handler runs what was posted before Close)
 		sc.CloseH = t.Bool(1, 3)
+		if sc.Map && !sc.CloseH && t.Bool(1, 2) {
+			// the Map-derived publisher has a SubscribeOn handler of its own
+			sc.DerivH = []string{"own", "same"}[t.Choose(2)]
+		}
 		// a callback running on the handler that publishes again would post to its own (unbuffered)
 		// handler: a self-deadlock by design, not a subject of the property
 		for i, a := range sc.Actions {
@@ -192,10 +198,15 @@ func (sc *c10Scenario) Run(s *simrt.Sim) {
 	sc.hTID = -1
 	if sc.Handler {
 		hd = fpgo.Handler.New()
+		if sc.DerivH == "same" {
+			// (origin and derived publisher on ONE handler: the forwarding callback posts to the handler it runs on,
+			// which needs a mailbox with room)
+			hd = fpgo.Handler.NewByCh(make(chan func(), 4096))
+		}
 		if sc.CloseH && sc.NSubs%2 == 1 {
 			hd = fpgo.Handler.NewByCh(make(chan func(), 8)) // a mailbox that can hold a backlog
 		}
-		if sc.NSubs%4 == 0 {
+		if sc.NSubs%4 == 0 && sc.DerivH != "same" {
 			// the library's default Handler, re-created inside this simulation (see C12)
 			fpgo.SimReinit()
 			hd = fpgo.Handler.GetDefault()
@@ -207,6 +218,9 @@ func (sc *c10Scenario) Run(s *simrt.Sim) {
 		s.WaitUntilTimeout(func() bool { return got }, time.Minute)
 	}
 	root := &c10Node{}
+	if sc.Handler {
+		root.hTID = sc.hTID
+	}
 	nodeOf := map[*fpgo.PublisherDef[int]]*c10Node{p: root}
 	var unsubscribe func(name string, target *c10Sub)
 	var newSub func(name string, pub *fpgo.PublisherDef[int], derived bool, action string, target int) *c10Sub
@@ -263,9 +277,22 @@ func (sc *c10Scenario) Run(s *simrt.Sim) {
 		cs.initial = true
 	}
 	var m *fpgo.PublisherDef[int]
+	var derivedHd *fpgo.HandlerDef
 	if sc.Map {
 		m = p.Map(func(v int) int { return v + c10MapOffset })
 		nodeOf[m] = &c10Node{parent: root, depth: 1}
+		switch sc.DerivH {
+		case "same":
+			m.SubscribeOn(hd)
+			nodeOf[m].hTID = sc.hTID
+		case "own":
+			hd2 := fpgo.Handler.New()
+			m.SubscribeOn(hd2)
+			got2 := false
+			hd2.Post(func() { nodeOf[m].hTID = s.Self().ID; got2 = true })
+			s.WaitUntilTimeout(func() bool { return got2 }, time.Minute)
+			derivedHd = hd2
+		}
 		for i := 0; i < sc.NDerive; i++ {
 			cs := newSub("main", m, true, "none", 0)
 			cs.initial = true
@@ -367,6 +394,22 @@ func (sc *c10Scenario) Run(s *simrt.Sim) {
 			sc.extra = append(sc.extra, Violation{Clause: "api-smoke", Fingerprint: "Publisher.New", Detail: fmt.Sprintf("Publisher.New(): two subscriptions, Publish(1), Unsubscribe(a), Publish(x) delivered %v, want [a1 b1 bx]", got)})
 		}
 	}
+	if hd != nil && !sc.CloseH {
+		// drain: a forwarding callback posts further deliveries when it runs, so go round a few times, through
+		// the origin's handler and then the derived publisher's
+		for round := 0; round < 3 && !sc.hung; round++ {
+			for _, x := range []*fpgo.HandlerDef{hd, derivedHd} {
+				if x == nil {
+					continue
+				}
+				d := false
+				x.Post(func() { d = true })
+				if !s.WaitUntilTimeout(func() bool { return d }, 10*time.Minute) {
+					sc.hung = true
+				}
+			}
+		}
+	}
 	if hd != nil && sc.CloseH {
 		s.Sleep(time.Second)
 	} else if hd != nil {
@@ -425,8 +468,22 @@ func (sc *c10Scenario) Check(res *simrt.Result) []Violation {
 					n++
 					// (only the origin has the SubscribeOn handler: a value published straight into a
 					// derived publisher is delivered by the publishing thread)
-					if sc.Handler && P.node.depth == 0 && d.thread != sc.hTID {
-						add("handler-routing", "delivery-not-on-handler", fmt.Sprintf("OnNext(%d) of subscription %d ran on thread T%d, the handler is T%d", d.val, cs.id, d.thread, sc.hTID))
+					// the delivery is made by the nearest publisher, from the subscription's own up to the one the value
+					// was published into, that has a SubscribeOn handler: on that handler's goroutine
+					for n := cs.node; n != nil; n = n.parent {
+						if n.hTID != 0 {
+							if d.thread != n.hTID {
+								fp := "delivery-not-on-handler"
+								if n.depth > 0 {
+									fp = "delivery-of-derived-publisher-not-on-its-handler"
+								}
+								add("handler-routing", fp, fmt.Sprintf("OnNext(%d) of subscription %d (publisher at depth %d) ran on thread T%d; the publisher at depth %d on the value's way has SubscribeOn(handler T%d)", d.val, cs.id, cs.node.depth, d.thread, n.depth, n.hTID))
+							}
+							break
+						}
+						if n == P.node {
+							break
+						}
 					}
 				}
 			}
